@@ -230,7 +230,7 @@ def finish(pid, tier, seed, t0, part, rule, level='exploration', exhaustive=True
     known = load_known()
     ksigs = {}
     for k in known.get('findings', []):
-        if k['property'] == pid:
+        if k['property'] == pid and k.get('signature'):
             ksigs[k['signature']] = k
     import re
     kre = [(re.compile(k['signature_regex']), k) for k in known.get('findings', []) if k['property'] == pid and k.get('signature_regex')]
